@@ -21,16 +21,16 @@ def _sig(msg):
         return "route:crash"
     if "not addressed to it" in msg:
         return "route:wrong-agent"
-    if "never handled" in msg:
-        return "route:lost"
     if "history raised" in msg:
         return "history:raised"
     if "twice" in msg:
         return "route:duplicate"
     if "opposite order" in msg or "time order" in msg:
         return "order:same-step"
-    if "handled" in msg and "expected" in msg:
+    if "never handled" in msg:
         return "route:lost-or-wrong-step"
+    if "non-existing agent" in msg:
+        return "route:wrong-agent"
     return "other"
 
 
@@ -48,18 +48,26 @@ def run(tier):
     rep = harness.Report(PID, tier, "model_checking", MODULE)
     rep.encoded(SimultaneousScheduler.run_step, Scheduler.handle_delayed_event, Agent.receive_event, Agent.handle_events,
                 Model.enqueue_event, Model.delete_agents, Model.configure_agents, Model.create_agent, Model.agent)
-    if tier == "quick":
-        slices = [(0, 1), (0, 2), (1, 1), (1, 2), (2, 1), (2, 2), (3, 1)]
-        tmo = 150
-    else:
-        slices = [(h, e) for h in range(0, 4) for e in range(1, 4)]
-        tmo = 1200
     jobs, meta = [], []
-    for h, e in slices:
-        firsts = [-1] if (h == 0 or h + e <= 3) else [0, 1, 2]
-        for f in firsts:
-            jobs.append(("_routing", tmo, {"C11_HLEN": str(h), "C11_ELEN": str(e), "C11_FIRST": str(f)}))
-            meta.append(("routing", h, e, f))
+
+    def add(h, e, first=-1, second=-1, estep=-1):
+        jobs.append(("_routing", tmo, {"C11_HLEN": str(h), "C11_ELEN": str(e), "C11_FIRST": str(first),
+                                       "C11_SECOND": str(second), "C11_ESTEP": str(estep)}))
+        meta.append(("routing", h, e, first))
+    if tier == "quick":
+        tmo = 240
+        add(0, 1), add(1, 1), add(2, 1), add(0, 2), add(1, 2, 0), add(1, 2, 1)
+        for st in range(3):
+            add(1, 2, 2, estep=st)
+    else:
+        tmo = 2400
+        add(0, 1), add(1, 1), add(2, 1), add(0, 2), add(0, 3, estep=0), add(0, 3, estep=1), add(0, 3, estep=2)
+        for f in range(3):
+            add(1, 2, f)
+            for g in range(3):
+                add(3, 1, f, g)
+                for st in range(3):
+                    add(2, 2, f, g, st)
     jobs.append(("_routing_twin", 60, {"C11_HLEN": "1", "C11_ELEN": "1", "C11_FIRST": "-1"}))
     meta.append(("twin", 1, 1, -1))
     jobs.append(("_routing", 120, {"C11_HLEN": "2", "C11_ELEN": "1", "C11_FIRST": "-1"}))
@@ -83,8 +91,10 @@ def run(tier):
         if r.verdict == chx.VERDICT_CONFIRMED:
             confirmed += 1
         elif r.verdict == chx.VERDICT_CEX and r.args:
-            hist = r.args.get("hist", r.args.get("_pos0"))
-            sends = r.args.get("sends", r.args.get("_pos1"))
+            names = ["h0", "a0", "h1", "a1", "h2", "a2", "s0", "r0", "d0", "s1", "r1", "d1", "s2", "r2", "d2"]
+            vals = [r.args.get(nm, r.args.get("_pos%d" % i)) for i, nm in enumerate(names)]
+            hist = [(vals[0], vals[1]), (vals[2], vals[3]), (vals[4], vals[5])][:h]
+            sends = [(vals[6], vals[7], vals[8]), (vals[9], vals[10], vals[11]), (vals[12], vals[13], vals[14])][:e]
             why = H.run_script([tuple(x) for x in hist], [tuple(x) for x in sends])
             rep.candidate(_sig(why), {"hist": [list(x) for x in hist], "sends": [list(x) for x in sends]}, "%s: %s" % (label, why))
         else:
